@@ -201,6 +201,7 @@ struct Value {
     }
 
     Value &operator=(ValueType type) noexcept {
+        reset();
         setType(type);
         return *this;
     }
